@@ -60,9 +60,12 @@ def main():
             results[sid] = {"error": "patch does not apply"}
             continue
         try:
-            demo = sh(["/venv/bin/python", str(d / "demo.py"), str(REPO)], timeout=1800)
-            res = {"property": meta["property"], "demo_exit_on_mutant": demo.returncode, "checks": {}}
-            targets = props if all_checks else [meta["property"]] + meta.get("also_run", [])
+            if "--primary-only" in sys.argv and sid in results and "demo_exit_on_mutant" in results[sid]:
+                demo_rc = results[sid]["demo_exit_on_mutant"]          # regression run: the demonstration was confirmed before
+            else:
+                demo_rc = sh(["/venv/bin/python", str(d / "demo.py"), str(REPO)], timeout=1800).returncode
+            res = {"property": meta["property"], "demo_exit_on_mutant": demo_rc, "checks": dict(results.get(sid, {}).get("checks", {})) if "--primary-only" in sys.argv else {}}
+            targets = props if all_checks else [meta["property"]] + ([] if "--primary-only" in sys.argv else meta.get("also_run", []))
             for p in targets:
                 rc, lines, secs = run_check(p)
                 res["checks"][p] = {"exit": rc, "secs": round(secs), "lines": [l[:400] for l in lines[:4]]}
